@@ -5,7 +5,7 @@ Open Scope Z_scope.
 
 (* a marked value is refused, whatever the constraint and the truncation oracle *)
 Lemma mp_marshal_marked_top trunc f v t : is_marked v = true -> mp_marshal_at trunc (S f) v t = Err OtherError.
-Proof. intros H. cbn [mp_marshal_at]. rewrite H. reflexivity. Qed.
+Proof. intros H. cbn [mp_marshal_at]. unfold mp_marshal_step. rewrite H. reflexivity. Qed.
 
 Lemma mp_marshal_marked trunc v t : is_marked v = true -> mp_marshal trunc v t = Err OtherError.
 Proof. intros H. unfold mp_marshal. apply mp_marshal_marked_top. exact H. Qed.
